@@ -498,3 +498,7 @@ def tryreturn(a, b):
         return (6 // a) == b
     except ZeroDivisionError:
         return None
+
+
+def oneline(a, b):
+    return a * 2 + b if a else b
